@@ -137,4 +137,74 @@ theorem specLoop_ok {base maxVal : Nat} (hb : 1 ≤ base) :
       simp only [List.length_cons]
       congr 2; omega
 
+/-- Success means: every character is a digit, the value fits, the index is `len(s)`. -/
+theorem specLoop_true {base maxVal : Nat} :
+    ∀ (s : Bytes) (i n v j : Nat), n ≤ maxVal → specLoop base maxVal s i n = (v, j, true) →
+      j = i + s.length ∧ v = accVal base s n ∧ (∀ c ∈ s, isDigit base c = true) ∧ v ≤ maxVal
+  | [], i, n, v, j, hn, h => by
+    simp only [specLoop, Prod.mk.injEq, and_true] at h
+    obtain ⟨rfl, rfl⟩ := h
+    simp [accVal, hn]
+  | c :: rest, i, n, v, j, hn, h => by
+    unfold specLoop at h
+    cases hdv : digitVal c with
+    | none => rw [hdv] at h; simp at h
+    | some d =>
+      rw [hdv] at h
+      simp only [] at h
+      split at h
+      · simp at h
+      · split at h
+        · simp at h
+        · rename_i h1 h2
+          obtain ⟨a, b, c', d'⟩ := specLoop_true rest (i + 1) (n * base + d) v j (by omega) h
+          refine ⟨by simp only [List.length_cons]; omega, by simp [accVal, hdv, b], ?_, d'⟩
+          intro x hx
+          rcases List.mem_cons.mp hx with rfl | hx
+          · simp only [isDigit, hdv, decide_eq_true_eq]; omega
+          · exact c' x hx
+
+/-- Failure reports the index of the first bad digit: either not a digit of the base
+(value 0) or the digit that makes the value exceed `maxVal` (value `maxVal`). -/
+theorem specLoop_false {base maxVal : Nat} :
+    ∀ (s : Bytes) (i n v j : Nat), n ≤ maxVal → specLoop base maxVal s i n = (v, j, false) →
+      ∃ k c, j = i + k ∧ s[k]? = some c ∧ (∀ c' ∈ s.take k, isDigit base c' = true) ∧
+        accVal base (s.take k) n ≤ maxVal ∧
+        ((isDigit base c = false ∧ v = 0) ∨
+         (isDigit base c = true ∧ accVal base (s.take (k + 1)) n > maxVal ∧ v = maxVal))
+  | [], i, n, v, j, hn, h => by simp [specLoop] at h
+  | c :: rest, i, n, v, j, hn, h => by
+    unfold specLoop at h
+    cases hdv : digitVal c with
+    | none =>
+      rw [hdv] at h
+      simp only [Prod.mk.injEq, and_true] at h
+      exact ⟨0, c, by omega, by simp, by simp, by simpa [accVal] using hn,
+        Or.inl ⟨by simp [isDigit, hdv], h.1.symm⟩⟩
+    | some d =>
+      rw [hdv] at h
+      simp only [] at h
+      split at h
+      · rename_i h1
+        simp only [Prod.mk.injEq, and_true] at h
+        exact ⟨0, c, by omega, by simp, by simp, by simpa [accVal] using hn,
+          Or.inl ⟨by simp only [isDigit, hdv, decide_eq_false_iff_not]; omega, h.1.symm⟩⟩
+      · rename_i h1
+        split at h
+        · rename_i h2
+          simp only [Prod.mk.injEq, and_true] at h
+          exact ⟨0, c, by omega, by simp, by simp, by simpa [accVal] using hn,
+            Or.inr ⟨by simp only [isDigit, hdv, decide_eq_true_eq]; omega,
+              by simpa [accVal, hdv] using h2, h.1.symm⟩⟩
+        · rename_i h2
+          obtain ⟨k, c2, hj, hg, hall, hacc, hor⟩ :=
+            specLoop_false rest (i + 1) (n * base + d) v j (by omega) h
+          refine ⟨k + 1, c2, by omega, by simpa using hg, ?_, by simpa [accVal, hdv] using hacc, ?_⟩
+          · intro x hx
+            simp only [List.take_succ_cons, List.mem_cons] at hx
+            rcases hx with rfl | hx
+            · simp only [isDigit, hdv, decide_eq_true_eq]; omega
+            · exact hall x hx
+          · simpa [accVal, hdv] using hor
+
 end Golib.C07
